@@ -37,8 +37,27 @@ RULE = ('A: objects of N=0..12 segments x every discovery answer (segment k<N, u
         'scenario with an unsegmented discovery answer and as a table relation x 9 shapes of the fetched name (1/3 generic '
         'components, trailing version / sequence / byte-offset / timestamp / keyword / empty component, long component) x '
         'discovery losses {0, r-1, r, r+1} x retry_times {1, 3} (A: x prefix mode; C: through the real pending-Interest table). '
-        'non-trivial = at least one Interest answered with Data and at least two Interests sent; distinct by case hash')
-ASSUMPTIONS = ['asyncio scheduling is irrelevant here: the fetcher awaits one coroutine at a time (sequential by construction)',
+        'CONCURRENT FETCHES (each fetch judged by Spec.expected on the scenario as that fetch met it): D: 2-3 fetchers over ONE fake '
+        'application on the virtual-time loop, own fates / discovery answer / prefix form / retry_times / lifetime / MustBeFresh / start '
+        'time each, answers take a round trip, slow segments only exist from an absolute time on, all receivers of one Data (same name, '
+        'same arrival time) get the SAME (name, meta, content) objects - table N 2..4 x slow segment x FinalBlockId placement x stagger '
+        '{0, 100, 450} x availability {300, 700} x discovery answer, plus sampled schedules; E: 2-3 fetchers over ONE real ndn.app.NDNApp '
+        'whose face is a scheduled network (per name the answers to the first Interests it sees: Data after a delay - fast, slow, slower '
+        'than a lifetime -, nothing, Nack with any reason form, Data failing validation; with / without forwarder-like aggregation); the '
+        'face logs every Interest (with the fetch whose task sent it) and every packet handed to the application, and the scenario a '
+        'fetch met is read off this log with the words of the property: its n-th Interest for a key is Delivered / Invalid / Nacked when '
+        'a matching Data / Nack reached the application after it was sent and strictly before its lifetime ran out, else Lost (a packet '
+        'within 0.1 ms of a deadline it could decide: case not judged, counted); one Data so answers Interests of several fetches '
+        'expressed at different times with different deadlines - table over two fetches of a 3-segment object: lifetime {400, 1000} x '
+        'stagger {100, L/2} x delay of ONE slow segment {inside the first lifetime: one Data answers both; between the deadline of the '
+        'earlier and of the later Interest; after both} x slow segment {0, 1, 2} x FinalBlockId on every / the last segment x retry '
+        'limits {(3,1), (1,3), (2,2)} x aggregation x later fetch with the same / half the lifetime, plus sampled schedules (one object '
+        'or two below one parent, fetched by its own name or by the parent, different lifetimes, starts up to after a lifetime); besides '
+        'the per-fetch oracles: re-expression only after the lifetime, no loop exception, pending-Interest table empty when all fetches '
+        'ended. non-trivial = at least one Interest answered with Data and at least two Interests sent; distinct by case hash')
+ASSUMPTIONS = ['one fetch awaits one coroutine at a time (sequential by construction); SEVERAL fetches over one application are '
+               'interleaved by asyncio - streams D and E run them on the virtual-time loop and judge each fetch against the scenario it '
+               'met (read off the face log: which Data / Nack reached the application inside the lifetime of which Interest)',
                'Name.normalize of the name argument is C09; the model starts from the normalised name',
                'content None (Data without Content) is not generated; contents are bytes']
 
@@ -257,7 +276,7 @@ def headline(s, retry, fate):
     return out, (0,)
 
 
-def check_discipline(ctx, trace, ending, att, case, site='segment_fetcher.retry'):
+def check_discipline(ctx, trace, ending, att, case, site='segment_fetcher.retry', tag=''):
     """Retry discipline on the implementation's own trace (Proofs/SegFetchAny.v [disciplined])."""
     events = trace
     pos = 0
@@ -273,28 +292,28 @@ def check_discipline(ctx, trace, ending, att, case, site='segment_fetcher.retry'
             pos += 1
         if k == att:
             if pos != len(events) or ending != (1, (0,)):
-                ctx.violation(site, 'timeout-not-raised-after-attempts',
+                ctx.violation(site, tag + 'timeout-not-raised-after-attempts',
                               f'{att} consecutive timeouts for one Interest but the fetch went on / ended with {ending}', case)
             return
         if pos >= len(events) or events[pos][0] != 'ask' or events[pos][1] != q:
-            ctx.violation(site, 'timeout-not-retried',
+            ctx.violation(site, tag + 'timeout-not-retried',
                           f'a timed-out Interest was not re-expressed (after {k} of {att} attempts)', case)
             return
         r = events[pos][2]
         pos += 1
         if r[0] == 'exc':
             if pos != len(events) or ending != (1, tuple(r[1])):
-                ctx.violation(site, 'exception-not-propagated',
+                ctx.violation(site, tag + 'exception-not-propagated',
                               f'the awaited Interest raised {r[1]} but the fetch went on / ended with {ending}', case)
             return
     if ending == (1, (0,)):
-        ctx.violation(site, 'timeout-without-exhaustion', 'InterestTimeout raised before the attempts were used up', case)
+        ctx.violation(site, tag + 'timeout-without-exhaustion', 'InterestTimeout raised before the attempts were used up', case)
 
 
-def check_nack_reason(ctx, site, ending, got_reason, sent_reason, case):
+def check_nack_reason(ctx, site, ending, got_reason, sent_reason, case, tag=''):
     """'Nacks propagate': the InterestNack the fetch ends with carries the reason of the Nack that was received."""
     if ending == (1, (1,)) and got_reason != sent_reason:
-        ctx.violation(site, 'nack-reason-changed',
+        ctx.violation(site, tag + 'nack-reason-changed',
                       f'the fetch ended with InterestNack(reason={got_reason!r}), the Nack received carried {sent_reason!r}', case)
 
 
@@ -424,7 +443,6 @@ def runaway(ctx, case):
 
 # ---- stream A -------------------------------------------------------------------------------------------
 def run_scenario(ctx, loop, s, retry, lifetime, mbf, how, stratum):
-    M = ctx.call
     kw = {}
     name_arg = s['prefix']
     if how == 1:
@@ -451,10 +469,22 @@ def run_scenario(ctx, loop, s, retry, lifetime, mbf, how, stratum):
     trace, ending, app = run_impl(loop, answer, name_arg, kw, as_view=(how == 1), nack_reason=nack_reason)
     case = {'scenario': s, 'retry_times': retry, 'timeout': lifetime, 'must_be_fresh': mbf, 'call_style': how,
             'nack_reason': nack_reason}
-    cfg = [retry, lifetime, int(mbf)]
     if len(trace) > 3000:
         runaway(ctx, case)
         return
+    judge_fetch(ctx, s, retry, lifetime, mbf, trace, ending, case, stratum, fate=fate, kwlog=app.kwlog, validator=validator,
+                got_reason=getattr(app.caught, 'reason', None), nack_reason=nack_reason, key=(repr(s), retry, lifetime, mbf, how))
+
+
+def judge_fetch(ctx, s, retry, lifetime, mbf, trace, ending, case, stratum, fate=None, kwlog=None, validator=None,
+                got_reason=None, nack_reason=None, key=None, site='segment_fetcher', tag=''):
+    """ONE fetch against the model and the specification: [trace] is what this fetch did (its Interests with the answers
+    the scenario [s] gives them, and its yields, in order), [ending] how it ended.  Used for the sequential streams and,
+    per fetch, for the concurrent ones (there [s] is the scenario as THIS fetch met it)."""
+    M = ctx.call
+    if fate is None:
+        fate = scenario_answer(s)[1]
+    cfg = [retry, lifetime, int(mbf)]
     es = enc_scn(s)
     # the Python producer is the specification's producer
     for t in trace:
@@ -467,7 +497,7 @@ def run_scenario(ctx, loop, s, retry, lifetime, mbf, how, stratum):
     mev, mend = norm(m[0]), dec_ending(m[1])
     iev = impl_events(trace)
     if mev != iev or mend != ending:
-        ctx.disagree('segment_fetcher', 'trace / ending differ', case, [mev, mend], [iev, ending])
+        ctx.disagree(site, 'trace / ending differ', case, [mev, mend], [iev, ending])
     # direct oracle 1: the extracted specification
     exp = M([3, retry, es])
     eys, eend = norm(exp[0]), dec_ending(exp[1])
@@ -476,38 +506,39 @@ def run_scenario(ctx, loop, s, retry, lifetime, mbf, how, stratum):
         missing = [c for c in eys if c not in ys]
         dup = len(ys) != len(set(ys))
         cls = 'segment-missing' if missing else ('segment-duplicated' if dup else ('segments-out-of-order' if sorted(ys) == sorted(eys) else 'extra-content'))
-        ctx.violation('segment_fetcher', cls, f'yielded {len(ys)} contents {[y.hex() for y in ys][:6]}, specification demands {[y.hex() for y in eys][:6]}', case)
+        ctx.violation(site, tag + cls, f'yielded {len(ys)} contents {[y.hex() for y in ys][:6]}, specification demands {[y.hex() for y in eys][:6]}', case)
     elif ending != eend:
-        ctx.violation('segment_fetcher', f'ending:{eend}->{ending}', f'fetch ended with {ending}, specification demands {eend}', case)
+        ctx.violation(site, tag + f'ending:{eend}->{ending}', f'fetch ended with {ending}, specification demands {eend}', case)
     # direct oracle 2: the headline property stated in Python
     h = headline(s, retry, fate)
     if h is not None:
         ctx.stat('headline_applicable')
         if (ys, ending) != (h[0], h[1]):
-            ctx.violation('segment_fetcher', 'headline', f'got {len(ys)} contents / {ending}; property demands {len(h[0])} / {h[1]}', case)
+            ctx.violation(site, tag + 'headline', f'got {len(ys)} contents / {ending}; property demands {len(h[0])} / {h[1]}', case)
     # direct oracle 3: what the producer saw
     att = max(1, retry)
-    check_discipline(ctx, trace, ending, att, case)
-    check_nack_reason(ctx, 'segment_fetcher.retry', ending, getattr(app.caught, 'reason', None), nack_reason, case)
+    check_discipline(ctx, trace, ending, att, case, site=site + '.retry', tag=tag)
+    check_nack_reason(ctx, site + '.retry', ending, got_reason, nack_reason, case, tag=tag)
     asks = [t for t in trace if t[0] == 'ask']
     for j, t in enumerate(asks):
         q = t[1]
         if q[2] != mbf or q[3] != lifetime:
-            ctx.violation('segment_fetcher.express', 'interest-parameters', f'Interest sent with must_be_fresh={q[2]} lifetime={q[3]}', case)
-    for v in app.kwlog:
+            ctx.violation(site + '.express', tag + 'interest-parameters', f'Interest sent with must_be_fresh={q[2]} lifetime={q[3]}', case)
+    for v in (kwlog or []):
         if v[0] is not validator or v[1] is not None or v[2]:
-            ctx.violation('segment_fetcher.express', 'validator-not-passed', 'express_interest called without the caller\'s validator', case)
-    check_asks(ctx, M, cfg, es, asks, case, 'segment_fetcher.express')
+            ctx.violation(site + '.express', tag + 'validator-not-passed', 'express_interest called without the caller\'s validator', case)
+    check_asks(ctx, M, cfg, es, asks, case, site + '.express')
     if asks and (asks[0][1][0] != s['prefix'] or not asks[0][1][1]):
-        ctx.violation('segment_fetcher.express', 'discovery-interest', 'first Interest is not the CanBePrefix Interest for the given name', case)
+        ctx.violation(site + '.express', tag + 'discovery-interest', 'first Interest is not the CanBePrefix Interest for the given name', case)
     nd = sum(1 for t in asks if t[1][1])
     if any(t[1][1] for t in asks[nd:]) or any(not t[1][1] for t in asks[:nd]):
-        ctx.violation('segment_fetcher.express', 'can-be-prefix-later', 'a follow-up Interest carries CanBePrefix', case)
+        ctx.violation(site + '.express', tag + 'can-be-prefix-later', 'a follow-up Interest carries CanBePrefix', case)
     answered = sum(1 for t in asks if t[2][0] == 'data')
-    ctx.case((repr(s), retry, lifetime, mbf, how), answered >= 1 and len(asks) >= 2,
+    ctx.case(key if key is not None else (repr(s), retry, lifetime, mbf), answered >= 1 and len(asks) >= 2,
              {'N': s['nseg'], 'disc': s['disc'][:2] if s['disc'][0] == 'seg' else 'whole', 'retry': retry,
               'yields': len(ys), 'ending': ending, 'interests': len(asks)}, stratum)
-    ctx.stat('ending:' + str(ending))
+    ctx.stat(('' if site == 'segment_fetcher' else stratum.split('.')[0] + '.') + 'ending:' + str(ending))
+    return ys, (eys, eend)
 
 
 def stream_a(ctx, loop):
@@ -651,5 +682,23 @@ def run(ctx):
         return
     finally:
         loop.close()
-    from harness.props import c19_app
+    from harness.props import c19_app, c19_conc
     c19_app.stream_c(ctx)
+    # several fetches at once over one application object (fake, real): each judged by the specification on its own
+    try:
+        c19_conc.stream_d(ctx)
+        c19_conc.stream_e(ctx)
+    except Runaway:
+        ctx.notes.append('stopped early: the fetcher under test does not terminate on lost Interests')
+
+
+def replay(ctx, data):
+    """Single-case replay for the concurrent streams (D, E); the sequential streams are re-run as a whole."""
+    from harness.lib.core import unjson
+    case = unjson(data.get('case') or (data.get('broken') or [{}])[0].get('case') or {})
+    if isinstance(case, dict) and str(case.get('stream', '')).startswith('concurrent'):
+        from harness.props import c19_conc
+        c19_conc.replay(ctx, case)
+    else:
+        ctx.notes.append('replay: no single-case replay for this stream; full run repeated with the same seed')
+        run(ctx)
